@@ -721,6 +721,26 @@ func cmdDecodeMut(a Args) {
 	if err != nil {
 		fatal("decodemut: %v", err)
 	}
+	// remaining-length fields of every length: 1..12 continuation bytes, terminated or not (the
+	// specification's Varint has at most 4 bytes; everything longer is malformed)
+	if a.num("shard", 0) == 0 || true {
+		for _, t := range allTypes {
+			first := byte(t)<<4 | t.DefaultFlags()
+			for k := 0; k <= 12; k++ {
+				for _, cont := range []byte{0x80, 0xff, 0x81} {
+					for _, term := range [][]byte{nil, {0x00}, {0x01}, {0x7f}, {0x02, 0x00, 0x01}, {0xff, 0x00}} {
+						x := []byte{first}
+						for i := 0; i < k; i++ {
+							x = append(x, cont)
+						}
+						x = append(x, term...)
+						res.Evaluations++
+						decodeOne(t, x, nil, res, "remaining-length field with continuation bytes")
+					}
+				}
+			}
+		}
+	}
 	nrand := a.num("random", 20000)
 	for i := 0; i < nrand; i++ {
 		n := rng.Intn(40)
